@@ -3,6 +3,13 @@ package main
 // Per-property driver configuration. rule/assumptions go verbatim into the
 // evidence file; the counts next to them are measured by the test processes.
 var props = map[string]propCfg{
+	"C02": {
+		rule: "closed programs in the subset J0 (var/let/const with shadowing, closures, arrows, default/rest/destructuring parameters, arguments, all loop kinds with per-iteration bindings, switch, labels, try/catch/finally, getters/setters, classes with super, compound/logical assignment and update operators on every reference kind, direct eval, with, generators) in strict/sloppy mode and global/function/eval placement; (b) definitional oracle: log sequence, completion value and exception must equal the environment-record interpreter refjs; (a) metamorphic oracle: 1-3 rewrites from {constant->variable, closure capture of every identifier, dynamic scope via if(false)eval(''), dead code, function -> eval of its own source, block wrap} must not change the observation; non-trivial = the program logged or threw (definitional) or a rewrite changed the multiset of bytecode instruction types (VerifDumpTypes); distinct = FNV-64 of printed source + mode + rewrites",
+		assumptions: []string{
+			"refjs (11k lines, written from ECMA-262, validated against goja on ~100k programs with every disagreement triaged against the spec) is the trusted definitional interpreter; programs it declines (unsupported construct, fuel) are counted under excluded",
+			"constructs that trip goja defects recorded as known findings are avoided by the generator and counted",
+		},
+	},
 	"C18": {
 		rule: "mapset: stateful histories (<= 40 operations, callbacks' operations included) over a pool of 12 keys on one Map or Set with up to 3 live iterators, judged against an append-only-list model of [[MapData]] with SameValueZero lookup; a case is non-trivial when a live iterator (or a running forEach/for-of) was advanced after a delete/clear that emptied a record at or before its cursor, or a set/get/has/delete found a stored key through a different representation of a SameValueZero-equal value (another producer expression or Go-injected value). symtable: histories on the symbol-keyed property table of one object, non-trivial when a deleted symbol was re-created and the key order observed afterwards, or the table was mutated while an enumeration (for-of over getOwnPropertySymbols, Object.assign / spread with mutating getters) was in progress; distinct = FNV-64 of the case's JSON",
 		assumptions: []string{
